@@ -240,11 +240,32 @@ func genMBoxes(r *rng.R, feat map[string]bool) []mbox {
 
 func genRules(r *rng.R) ruleSet {
 	rs := ruleSet{features: map[string]bool{}}
-	h := float64(60 + 20*r.Intn(8))
+	// page boxes with borders / paddings get taller sheets, so that the content box never degenerates
+	// (a negative content height is clamped to 0 by the code and is outside the modelled domain)
+	deco := r.P(1, 3)
+	tall := 0.0
+	if deco {
+		tall = 120
+	}
+	h := float64(60+20*r.Intn(8)) + tall
 	base := rule{sels: []sel{{}}}
 	base.decls = append(base.decls,
 		decl{fmt.Sprintf("size:200px %vpx", h), []sx.X{d1("size-w", "px", 200, false), d1("size-h", "px", h, false)}},
 		decl{"margin:10px", []sx.X{d1("margin-top", "px", 10, false), d1("margin-right", "px", 10, false), d1("margin-bottom", "px", 10, false), d1("margin-left", "px", 10, false)}})
+	if deco {
+		// borders and paddings of the page box, top != bottom, left != right
+		for _, side := range []string{"top", "bottom", "left", "right"} {
+			if r.P(1, 2) {
+				v := float64(2 * r.Intn(11))
+				base.decls = append(base.decls, decl{fmt.Sprintf("border-%s:%vpx solid", side, v), []sx.X{d1("border-"+side+"-width", "px", v, false)}})
+			}
+			if r.P(1, 3) {
+				v := float64(5 * r.Intn(5))
+				base.decls = append(base.decls, decl{fmt.Sprintf("padding-%s:%vpx", side, v), []sx.X{d1("padding-"+side, "px", v, false)}})
+			}
+		}
+		rs.features["page-border-padding"] = true
+	}
 	rs.mboxes = genMBoxes(r, rs.features)
 	base.extra = marginCSS(rs.mboxes)
 	rs.rules = append(rs.rules, base)
@@ -277,11 +298,11 @@ func genRules(r *rng.R) ruleSet {
 		}
 		k := 1 + r.Intn(2)
 		for j := 0; j < k; j++ {
-			switch r.Intn(6) {
+			switch r.Intn(7) {
 			case 0:
 				ru.decls = append(ru.decls, genLenDecl(r, "margin-bottom", true))
 			case 1:
-				hh := float64(60 + 20*r.Intn(8))
+				hh := float64(60+20*r.Intn(8)) + tall
 				ru.decls = append(ru.decls, decl{fmt.Sprintf("size:200px %vpx", hh), []sx.X{d1("size-w", "px", 200, false), d1("size-h", "px", hh, false)}})
 				rs.features["size"] = true
 			case 2:
@@ -290,6 +311,15 @@ func genRules(r *rng.R) ruleSet {
 				rs.features["height"] = true
 			case 3:
 				ru.decls = append(ru.decls, genLenDecl(r, "margin-left", true))
+			case 4:
+				if !deco {
+					ru.decls = append(ru.decls, genLenDecl(r, "margin-top", true))
+					break
+				}
+				side := rng.Pick(r, "top", "bottom")
+				v := float64(2 * r.Intn(11))
+				ru.decls = append(ru.decls, decl{fmt.Sprintf("border-%s:%vpx solid", side, v), []sx.X{d1("border-"+side+"-width", "px", v, false)}})
+				rs.features["page-border-padding"] = true
 			default:
 				ru.decls = append(ru.decls, genLenDecl(r, "margin-top", true))
 			}
@@ -321,12 +351,16 @@ type implPage struct {
 	right, blank, first bool
 	index               int
 	name                int
-	geom                [8]float64 // sheetW sheetH mL w mR mT h mB
+	geom                [16]float64 // marginBoxW marginBoxH mL w mR mT h mB bL bR bT bB pL pR pT pB
 	lines               []c02.Placed
 	margin              []string
 	marginBy            map[string]string // at-keyword -> text of the margin box (white space removed)
 	boxes               []decoBox         // block boxes that keep a bottom padding / border on this page
 }
+
+// top / bottom of the page's content box
+func (p implPage) top() float64    { return p.geom[5] + p.geom[10] + p.geom[14] }
+func (p implPage) bottom() float64 { return p.top() + p.geom[6] }
 
 // decoBox: a block box with bottom decoration (not removed by fragmentation) on a page.
 type decoBox struct {
@@ -353,8 +387,10 @@ func observe(pages []*bo.PageBox) []implPage {
 	var out []implPage
 	for _, p := range pages {
 		ip := implPage{right: p.PageType.Side == "right", blank: p.PageType.Blank, first: p.PageType.First, index: p.PageType.Index, name: pageName(p.PageType.Name)}
-		ip.geom = [8]float64{float64(p.MarginWidth()), float64(p.MarginHeight()), float64(p.MarginLeft.V()), float64(p.Width.V()), float64(p.MarginRight.V()),
-			float64(p.MarginTop.V()), float64(p.Height.V()), float64(p.MarginBottom.V())}
+		ip.geom = [16]float64{float64(p.MarginWidth()), float64(p.MarginHeight()), float64(p.MarginLeft.V()), float64(p.Width.V()), float64(p.MarginRight.V()),
+			float64(p.MarginTop.V()), float64(p.Height.V()), float64(p.MarginBottom.V()),
+			float64(p.BorderLeftWidth.V()), float64(p.BorderRightWidth.V()), float64(p.BorderTopWidth.V()), float64(p.BorderBottomWidth.V()),
+			float64(p.PaddingLeft.V()), float64(p.PaddingRight.V()), float64(p.PaddingTop.V()), float64(p.PaddingBottom.V())}
 		ip.marginBy = map[string]string{}
 		for _, ch := range p.Children {
 			mb, isMargin := ch.(*bo.MarginBox)
@@ -415,7 +451,7 @@ func ratF(x sx.X) float64 {
 type modelPage struct {
 	right, blank, forced bool
 	index, name          int
-	geom                 [8]float64
+	geom                 [16]float64
 	counter              int
 	lines                []c02.Placed
 }
@@ -441,7 +477,7 @@ func parseModel(ans sx.X) (bool, []modelPage, error) {
 			y, _ := strconv.Atoi(l.Xs[1].S)
 			mpg.lines = append(mpg.lines, c02.Placed{Tok: t, Page: mpg.index, Y: float64(y) / 4})
 		}
-		for i := 0; i < 8; i++ {
+		for i := 0; i < 16; i++ {
 			mpg.geom[i] = ratF(g.Xs[1+i])
 		}
 		mpg.counter, _ = strconv.Atoi(e.Xs[2].S)
@@ -513,7 +549,7 @@ func Run(tier string, seed uint64, modelPath, repo string, out *res.Result) erro
 	out.Rule = "class-F documents of the C02 generator (levels 0-3, named pages n1/n2 via `page`, break values incl. recto/verso) x @page rule sets " +
 		"(base rule with size + margins + 1-10 margin boxes showing counter(page)/counter(pages)/counter(foo), half of them manipulating page or foo themselves; 0-4 further rules with selectors :first :left :right :blank :nth(an+b) (a in -3..3, b in -2..12, also :nth():left) n1 n2 and combinations, selector lists, " +
 		"root element direction ltr/rtl (1/3 rtl) and break-before left/right/recto/verso (1/4), " +
-		"declarations margin-top/bottom/left (px, %, auto, !important), size, height); non-trivial = >= 2 pages and >= 2 @page rules; distinct by full HTML text"
+		"declarations margin-top/bottom/left (px, %, auto, !important), size, height, page border-*/padding-* with top != bottom and left != right on a third of the rule sets); one document in eight a long bottom-decorated paragraph split over pages, one in eight a bottom-decorated wrapper ending at the page bottom; non-trivial = >= 2 pages and >= 2 @page rules; distinct by full HTML text"
 	render.Quiet()
 	c02.InstallGuard() // per-document page limit: a runaway page loop is stopped and reported
 	fonts, err := render.NewFonts(repo)
@@ -550,9 +586,18 @@ func Run(tier string, seed uint64, modelPath, repo string, out *res.Result) erro
 			// structured case: a wrapper with bottom padding / border whose content ends within that
 			// decoration of the page bottom (one page geometry: only the base rule)
 			rs.rules = rs.rules[:1]
+			rs.rules[0].decls = rs.rules[0].decls[:2]
 			h := float64(60 + 20*sub.Intn(6))
 			rs.rules[0].decls[0] = decl{fmt.Sprintf("size:200px %vpx", h+20), []sx.X{d1("size-w", "px", 200, false), d1("size-h", "px", h+20, false)}}
 			opts = c02.GenOpts{WrapperBottom: true, PageH: h}
+		}
+		if i%8 == 3 {
+			// structured case: long paragraphs with bottom padding / border split over several pages
+			rs.rules = rs.rules[:1]
+			rs.rules[0].decls = rs.rules[0].decls[:2]
+			h := float64(80 + 20*sub.Intn(4))
+			rs.rules[0].decls[0] = decl{fmt.Sprintf("size:200px %vpx", h+20), []sx.X{d1("size-w", "px", 200, false), d1("size-h", "px", h+20, false)}}
+			opts = c02.GenOpts{ParaBottom: true, PageH: h}
 		}
 		doc := c02.GenClassF(sub, opts, rs.css()+extra)
 		doc.Root.St.BB = rootBB
@@ -671,7 +716,7 @@ func oneCase(m *mp.Model, doc *c02.ClassF, rs ruleSet, seed uint64, fonts text.F
 				diff, thm = fmt.Sprintf("page %d: page name: implementation n%d, model n%d", i, a.name, b.name), "named_page_change_forces_break, next_page_carries_name"
 				break
 			}
-			for k := 0; k < 8; k++ {
+			for k := 0; k < 16; k++ {
 				if math.Abs(a.geom[k]-b.geom[k]) > geomTol {
 					diff, thm = fmt.Sprintf("page %d: geometry component %d: implementation %v, model %v", i, k, a.geom[k], b.geom[k]), "cascaded_from_matching_rule, page_box_equation"
 					break pagesLoop
@@ -679,6 +724,13 @@ func oneCase(m *mp.Model, doc *c02.ClassF, rs ruleSet, seed uint64, fonts text.F
 			}
 			if len(a.lines) != len(b.lines) {
 				diff = fmt.Sprintf("page %d: implementation has %d lines, model %d", i, len(a.lines), len(b.lines))
+				// a page that ends INSIDE a paragraph at different lines: where a paragraph's fragment ends is
+				// what line_end_justified / geo_line_does_not_fit_iff prove about the model (the next line does
+				// not fit; the bottom padding / border counts for the paragraph's last line only)
+				if la, lb := lastTok(a.lines), lastTok(b.lines); la != 0 && lb != 0 && sameParagraph(doc.Root, la, lb) &&
+					(sameParagraph(doc.Root, la, la+1) || sameParagraph(doc.Root, lb, lb+1)) && (i == 0 || firstTok(a.lines) == firstTok(b.lines)) {
+					thm = "line_end_justified, geo_line_does_not_fit_iff"
+				}
 				break
 			}
 			for j := range a.lines {
@@ -749,4 +801,36 @@ func marginDiff(ms []mbox, got map[string]string, pc, total int) string {
 		}
 	}
 	return ""
+}
+
+func lastTok(ls []c02.Placed) int {
+	if len(ls) == 0 {
+		return 0
+	}
+	return ls[len(ls)-1].Tok
+}
+
+func firstTok(ls []c02.Placed) int {
+	if len(ls) == 0 {
+		return 0
+	}
+	return ls[0].Tok
+}
+
+// sameParagraph: tokens a and b are lines of one paragraph of the abstract tree.
+func sameParagraph(b *c02.Box, x, y int) bool {
+	if b.Lines != nil {
+		hx, hy := false, false
+		for _, t := range b.Lines {
+			hx = hx || t == x
+			hy = hy || t == y
+		}
+		return hx && hy
+	}
+	for _, k := range b.Kids {
+		if sameParagraph(k, x, y) {
+			return true
+		}
+	}
+	return false
 }
